@@ -80,6 +80,30 @@ def body(ctx):
                 plan.append("ln broadcast %s 0 %s - - %s" % (t, rows[0], wrow(w)))
                 plan.append("ln ctor_bcast %s 0 %s - - %s" % (t, rows[0], wrow(w)))
                 plan.append("ln get %s 0 %s - - %s" % (t, rows[0], wrow(w)))
+        # converting gather / scatter: a table of n elements of another type, converted on access (C06 meaning per element)
+        import struct
+        for t, nb, u, nu in (("f32", 4, "f64", 8), ("i32", 4, "f64", 8), ("f64", 8, "f32", 4), ("i64", 8, "f32", 4)):
+            pk = (lambda v: struct.pack("<d", v)) if u == "f64" else (lambda v: struct.pack("<f", v))
+            for w in (16, 32, 64):
+                n = w // nb
+                for off in (0, PAGE - n * nu, 1024 + nu):
+                    for _ in range(ctx.q(4, 40)):
+                        if t[0] == "f":       # values that need rounding, tiny, huge, negative zero, exactly representable
+                            tv = [rng.choice([rng.uniform(-1e6, 1e6), 1.0 + 2.0 ** -rng.randint(20, 40), -0.0, rng.uniform(-1, 1) * 2.0 ** rng.randint(-60, 60), float(rng.randint(-99, 99))]) for _ in range(n)]
+                        else:                 # in-range values with fractions (truncation toward zero)
+                            tv = [rng.choice([rng.uniform(-2.0 ** 31 + 1, 2.0 ** 31 - 200), rng.randint(-9, 9) + rng.choice((0.5, -0.5, 0.99, -0.99, 0.0)), float(rng.randint(-2 ** 24, 2 ** 24))]) for _ in range(n)]
+                        tb = b"".join(pk(v) for v in tv).ljust(128, b"\0")
+                        anyidx = [rng.randrange(n) for _ in range(n)]
+                        plan.append("ga gather_cv:%s %s %d %s %s %s %s" % (u, t, off, tb[:64].hex(), vf.hexrow(vf.pack_lanes(anyidx, nb)).ljust(128, "0"), tb[64:128].hex(), wrow(w)))
+                        plan.append("ga gather_cv:%s %s %d %s %s %s %s" % (u, t, off, tb[:64].hex(), vf.hexrow(vf.pack_lanes(list(range(n - 1, -1, -1)), nb)).ljust(128, "0"), tb[64:128].hex(), wrow(w)))
+                        perm = list(range(n))
+                        rng.shuffle(perm)
+                        if t[0] == "f":
+                            xs = [rng.choice([rng.uniform(-1e6, 1e6), -0.0, float(rng.randint(-99, 99)), rng.uniform(-1, 1) * 2.0 ** rng.randint(-30, 30)]) for _ in range(n)]
+                            xr = b"".join((struct.pack("<f", v) if nb == 4 else struct.pack("<d", v)) for v in xs)
+                        else:
+                            xr = bytes(vf.pack_lanes([rng.choice([rng.randint(-2 ** 24, 2 ** 24), rng.randint(-2 ** (8 * nb - 1), 2 ** (8 * nb - 1) - 1), 0, -1]) for _ in range(n)], nb))
+                        plan.append("ga scatter_cv:%s %s %d %s %s - %s" % (u, t, off, xr.ljust(64, b"\0").hex(), vf.hexrow(vf.pack_lanes(perm, nb)).ljust(128, "0"), wrow(w)))
         for t, nb in (("f32", 4), ("f64", 8)):
             for w in (16, 32, 64):
                 rows = [datarow(rng, nb, w, 1), datarow(rng, nb, w, 2)]
@@ -93,6 +117,8 @@ def body(ctx):
     events, plan = lanes.record(ctx, "mem", plan, "c04")
     for e in events:
         e.pop("d", None)
+        if ":" in e["op"]:
+            e["op"], e["u"] = e["op"].split(":")
     ctx.log("events: %d" % len(events))
     lanes.validate(ctx, "T_Mem.tla", events, "c04", plan_lines=plan)
     return dict(exhaustive=False,
